@@ -75,9 +75,9 @@ R("5b5e45b5c2", "internal", "timeout += at most 1.5 * timeout for a fixed number
 # ------------------------------------------------------------------ mutexes and channels
 R("c3fdd12a00", "internal", "address_cache mutex: the critical sections only touch a HashSet and cannot panic, so the lock is never poisoned", count=3)
 R("469778b6a2", "internal", "the cache Option was filled a few lines above under the same call")
-R("1b171b2551", "internal", "oneshot send: the requester awaits the receiver with no cancellation point in between")
-R("3f26c090d5", "internal", "oneshot send: the requester awaits the receiver with no cancellation point in between")
-R("4c63a904dd", "internal", "oneshot send: the requester awaits the receiver with no cancellation point in between")
+R("1b171b2551", "internal", "oneshot send: the requester awaits the receiver with no cancellation point in between", requires=("S4",))
+R("3f26c090d5", "internal", "oneshot send: the requester awaits the receiver with no cancellation point in between", requires=("S4",))
+R("4c63a904dd", "internal", "oneshot send: the requester awaits the receiver with no cancellation point in between", requires=("S4",))
 R("48fba22fcf", "internal", "send_tcp_query is called only after run() has (re)opened self.tcp on the same loop iteration")
 R("33b83cdd98", "internal", "read_reply is polled only while self.tcp is Some (the select arm is guarded by it)")
 R("b9718c2c5b", "internal", "futures::select! without a complete branch: the mpsc receiver and the timers never all complete")
